@@ -28,6 +28,8 @@ for f in sorted(glob.glob(os.path.join(out_dir, "C*.json"))):
         json.dump(m, open(mp, "w"), indent=1)
         n += 1
         continue
+    if "evaluation" in m and m["evaluation"].get("commit") != commit:
+        m.setdefault("earlier_evaluations", []).append(m["evaluation"])       # keep what older machinery reported
     m["evaluation"] = dict(commit=commit, fired=r["fired"], concrete=r["concrete"], infra=r["infra"])
     m["checks_reporting"] = r["fired"]
     m["detected_by_target_check"] = r["target"]
